@@ -132,6 +132,52 @@ theorem c19_route_by_prefix (s : Bytes) (evs : List Ev) (hc : cleanEvs evs) :
     obtain ⟨h1, h2, _, _, h5⟩ := hopen hne
     exact ⟨h1, h2 c19_registrations.2, h5⟩
 
+/-- Routing is SOUND under EVERY behaviour of the peer and the socket — any segmentation, any
+    pauses, the sniff time-out firing at any point, EOF, read errors, even data delivered
+    together with an error — and for EVERY byte stream: `Listener.serve` does not panic; the
+    RTSP service gets the connection only if the stream starts with one of `MatchRTSP`'s
+    strings and the HTTP service only if it starts with an HTTP method (so a stream that
+    begins with no listed method reaches nobody: `c19_no_method_at_start_closed`); the
+    outcome is exactly one of RTSP / HTTP / closed; a handed-over connection is open, its sniff
+    deadline is cleared and buffered ++ undelivered is the whole original stream; a connection
+    nobody gets is closed.  (Which of the services a *fragment* followed by a pause longer
+    than the sniff time-out reaches is decided by what had arrived when the time-out fired;
+    completeness — the right service for a whole request line — is `c19_classify`, for scripts
+    that only deliver data.) -/
+theorem c19_route_sound_any_script (s : Bytes) (evs : List Ev) :
+    ∃ r, genServe s evs = .ok r ∧
+      (svcOfRoute r.route = .rtsp → (specials ++ rtspOnlyMethods).any (fun k => k.isPrefixOf s) = true) ∧
+      (svcOfRoute r.route = .http → httpMethods.any (fun k => k.isPrefixOf s) = true) ∧
+      (r.route = .closed ↔ svcOfRoute r.route = .none) ∧
+      (r.route ≠ .closed → r.st.closed = false ∧ r.st.deadline = false ∧ pending r.st ++ r.st.rem = s) ∧
+      (r.route = .closed → r.st.closed = true) := by
+  obtain ⟨r, hr, h1, h2, h3, h4, h5⟩ := serve_gen_any s evs
+  refine ⟨r, hr, h1, h2, h3, fun hne => ?_, h5⟩
+  obtain ⟨a, b, c⟩ := h4 hne
+  exact ⟨a, b c19_registrations.2, c⟩
+
+/-- a stream that begins with no registered string reaches no service, whatever the peer and
+    the socket do (the all-scripts strengthening of `c19_not_a_request_line_closed`) -/
+theorem c19_no_method_at_start_closed (s : Bytes) (evs : List Ev)
+    (h : ∀ k ∈ specials ++ rtspOnlyMethods ++ httpMethods, k.isPrefixOf s = false) :
+    ∃ r, genServe s evs = .ok r ∧ r.route = .closed ∧ r.st.closed = true := by
+  obtain ⟨r, hr, h1, h2, h3, _, h5⟩ := c19_route_sound_any_script s evs
+  have hcl : r.route = .closed := by
+    rw [h3]
+    cases hp : svcOfRoute r.route with
+    | none => rfl
+    | rtsp =>
+      have := h1 hp
+      rw [List.any_eq_true] at this
+      obtain ⟨k, hk, hkp⟩ := this
+      rw [h k (List.mem_append_left _ hk)] at hkp; cases hkp
+    | http =>
+      have := h2 hp
+      rw [List.any_eq_true] at this
+      obtain ⟨k, hk, hkp⟩ := this
+      rw [h k (List.mem_append_right _ hk)] at hkp; cases hkp
+  exact ⟨r, hr, hcl, h5 hcl⟩
+
 /-- `c19_classify`: for EVERY first line `method SP target SP version` followed by CR / LF /
     nothing, with a blank-free method token that is a listed method or extends none, a
     blank-free target, ANY version, ANY payload behind the line and ANY segmentation of the
